@@ -13,6 +13,7 @@ import (
 	"sort"
 	"strings"
 
+	"golang.org/x/tools/go/ast/astutil"
 	"golang.org/x/tools/go/packages"
 )
 
@@ -235,6 +236,13 @@ func normalizeOnce(repo string, known map[string]bool, round int) (string, []str
 				normDebug("helper %s is not eligible (variadic, own type parameters, recursive, goto or unnamed parameters)", obj.Name())
 				delete(helpers, obj)
 			}
+		}
+		// expression helpers (`func h(a, b) T { return <expr> }` called with plain local names): the call is
+		// replaced by the expression itself, so that a condition like `if item.expired()` is again the
+		// short-circuit test the rules read. Done in a round of its own.
+		if n, names := substituteExprHelpers(p, name, helpers, declFile, changedFiles); n > 0 {
+			done = append(done, names...)
+			continue
 		}
 		// all uses must be supported call sites
 		sites := map[*types.Func][]inlineSite{}
@@ -1078,4 +1086,212 @@ func hasReturn(fd *ast.FuncDecl) bool {
 		return true
 	})
 	return found
+}
+
+// substituteExprHelpers handles unknown helpers whose body is a single `return <expr>` without
+// function literals, composite literals or address-taking, and whose every use is a call with
+// arguments (and receiver) that are plain identifiers of local variables, parameters or constants,
+// or basic literals. Such a call is replaced by the parenthesised expression with the parameters
+// renamed to the arguments: evaluation of a local name is pure, so evaluating it as often as the
+// parameter occurs changes nothing.
+func substituteExprHelpers(p *packages.Package, pkgName string, helpers map[*types.Func]*ast.FuncDecl, declFile map[*ast.FuncDecl]*ast.File, changedFiles map[string]*ast.File) (int, []string) {
+	cand := map[*types.Func]ast.Expr{}
+	for obj, fd := range helpers {
+		if len(fd.Body.List) != 1 || fd.Type.TypeParams != nil {
+			continue
+		}
+		rs, ok := fd.Body.List[0].(*ast.ReturnStmt)
+		if !ok || len(rs.Results) != 1 {
+			continue
+		}
+		good := true
+		ast.Inspect(rs.Results[0], func(n ast.Node) bool {
+			switch x := n.(type) {
+			case *ast.FuncLit, *ast.CompositeLit:
+				good = false
+			case *ast.UnaryExpr:
+				if x.Op == token.AND || x.Op == token.ARROW {
+					good = false
+				}
+			case *ast.Ident:
+				if fo, isF := p.TypesInfo.Uses[x].(*types.Func); isF && helpers[fo.Origin()] != nil {
+					good = false // calls another unknown helper: later round
+				}
+			}
+			return true
+		})
+		if good {
+			cand[obj] = rs.Results[0]
+		}
+	}
+	if len(cand) == 0 {
+		return 0, nil
+	}
+	simpleArg := func(e ast.Expr) bool {
+		switch x := e.(type) {
+		case *ast.BasicLit:
+			return true
+		case *ast.Ident:
+			switch o := p.TypesInfo.Uses[x].(type) {
+			case *types.Const, *types.Nil:
+				return true
+			case *types.Var:
+				return !o.IsField() && o.Parent() != nil && o.Parent() != p.Types.Scope() // local variable or parameter
+			}
+		}
+		return false
+	}
+	calleeOf := func(c *ast.CallExpr) (*types.Func, *ast.Ident) {
+		var id *ast.Ident
+		switch f := c.Fun.(type) {
+		case *ast.Ident:
+			id = f
+		case *ast.SelectorExpr:
+			id = f.Sel
+		}
+		if id == nil {
+			return nil, nil
+		}
+		if fo, ok := p.TypesInfo.Uses[id].(*types.Func); ok && cand[fo.Origin()] != nil {
+			return fo.Origin(), id
+		}
+		return nil, nil
+	}
+	// every use must be an eligible call
+	usedAsCall := map[*ast.Ident]bool{}
+	type site struct {
+		call *ast.CallExpr
+		obj  *types.Func
+	}
+	var sitesList []site
+	bad := map[*types.Func]bool{}
+	for _, f := range p.Syntax {
+		ast.Inspect(f, func(n ast.Node) bool {
+			c, ok := n.(*ast.CallExpr)
+			if !ok {
+				return true
+			}
+			fo, id := calleeOf(c)
+			if fo == nil {
+				return true
+			}
+			usedAsCall[id] = true
+			fd := helpers[fo]
+			okSite := shadowSafe(p, fd, c)
+			for _, a := range c.Args {
+				if !simpleArg(a) {
+					okSite = false
+				}
+			}
+			if fd.Recv != nil {
+				sel, isSel := c.Fun.(*ast.SelectorExpr)
+				if !isSel || !simpleArg(sel.X) || len(fd.Recv.List) != 1 || len(fd.Recv.List[0].Names) != 1 {
+					okSite = false
+				} else {
+					_, recvPtr := fd.Recv.List[0].Type.(*ast.StarExpr)
+					_, argPtr := p.TypesInfo.TypeOf(sel.X).Underlying().(*types.Pointer)
+					if recvPtr != argPtr {
+						okSite = false
+					}
+				}
+			}
+			if !okSite {
+				bad[fo] = true
+			}
+			sitesList = append(sitesList, site{c, fo})
+			return true
+		})
+	}
+	for id, obj := range p.TypesInfo.Uses {
+		if fo, ok := obj.(*types.Func); ok && cand[fo.Origin()] != nil && !usedAsCall[id] {
+			bad[fo.Origin()] = true
+		}
+	}
+	repl := map[*ast.CallExpr]ast.Expr{}
+	doneObjs := map[*types.Func]bool{}
+	for _, st := range sitesList {
+		if bad[st.obj] {
+			continue
+		}
+		fd := helpers[st.obj]
+		bind := map[string]string{}
+		i := 0
+		for _, f := range fd.Type.Params.List {
+			for _, nm := range f.Names {
+				bind[nm.Name] = exprSrc(p.Fset, st.call.Args[i])
+				i++
+			}
+		}
+		if fd.Recv != nil {
+			bind[fd.Recv.List[0].Names[0].Name] = exprSrc(p.Fset, st.call.Fun.(*ast.SelectorExpr).X)
+		}
+		body, err := parser.ParseExpr(exprSrc(p.Fset, cand[st.obj]))
+		if err != nil {
+			bad[st.obj] = true
+			continue
+		}
+		failed := false
+		body = astutil.Apply(body, func(c *astutil.Cursor) bool {
+			id, ok := c.Node().(*ast.Ident)
+			if !ok {
+				return true
+			}
+			if _, isSel := c.Parent().(*ast.SelectorExpr); isSel && c.Name() == "Sel" {
+				return true
+			}
+			if src, has := bind[id.Name]; has {
+				e, err := parser.ParseExpr(src)
+				if err != nil {
+					failed = true
+					return true
+				}
+				c.Replace(e)
+			}
+			return true
+		}, nil).(ast.Expr)
+		if failed {
+			bad[st.obj] = true
+			continue
+		}
+		repl[st.call] = &ast.ParenExpr{X: body}
+		doneObjs[st.obj] = true
+	}
+	n := 0
+	for _, f := range p.Syntax {
+		changed := false
+		astutil.Apply(f, func(c *astutil.Cursor) bool {
+			if call, ok := c.Node().(*ast.CallExpr); ok {
+				if e, has := repl[call]; has {
+					if fo, _ := calleeOf(call); fo != nil && !bad[fo] {
+						c.Replace(e)
+						changed = true
+						n++
+						return false
+					}
+				}
+			}
+			return true
+		}, nil)
+		if changed {
+			changedFiles[p.Fset.Position(f.Pos()).Filename] = f
+		}
+	}
+	var names []string
+	for obj := range doneObjs {
+		if bad[obj] {
+			continue
+		}
+		fd := helpers[obj]
+		f := declFile[fd]
+		var nd []ast.Decl
+		for _, d := range f.Decls {
+			if d != ast.Decl(fd) {
+				nd = append(nd, d)
+			}
+		}
+		f.Decls = nd
+		changedFiles[p.Fset.Position(f.Pos()).Filename] = f
+		names = append(names, funcKey(pkgName, fd))
+	}
+	return n, names
 }
